@@ -24,6 +24,11 @@ FN_ATTRS = [
     "#[::vattr::mark(a, b = \"c\", [d] {e} (f), 1.5e3, 'x', b\"bytes\", r#\"raw\"#)]",
     "#[::vattr::mark]",
     "#[::vattr::mark(x = y::z<w>)]",
+    # enabled cfg predicates, singly and several distinct ones on one fn (they are mirrored onto generated methods, in order)
+    "#[cfg(all())]",
+    "#[cfg(not(any()))]",
+    "#[cfg(all())]\n#[cfg(not(any()))]\n#[cfg(any(unix, not(unix)))]\n#[cfg(all(all()))]",
+    "#[cfg(any(unix, windows, not(unix)))]\n#[cfg(not(all(any())))]\n#[cfg(all(not(any())))]",
 ]
 
 VIS = ["", "pub", "pub(crate)", "pub(super)", "pub(self)", "pub(in crate)", "pub(in super)", "pub(in self)", "crate_vis_placeholder"]
